@@ -391,9 +391,49 @@ def comprehension_scope(ctx):
     modgen.unload(m)
 
 
+SUBCLASS_SRC = modgen.DS_HEADER + '''
+import enum
+class GeV(float): pass
+class Col(enum.IntEnum):
+    RED = 1
+class Label(str): pass
+class Raw(bytes): pass
+G_F, G_E, G_S, G_B = GeV(30.5), Col.RED, Label("a'b"), Raw(b"x")
+def build(ds, c0):
+    return ds.Select(lambda e: e.f(G_F, G_E, G_S, G_B, c0)), ds.Where(lambda e: e.jets.Select(lambda j: j.pt > G_F).Count() > G_E)
+'''
+
+
+def subclass_scalars(ctx):
+    """captured values whose type is a SUBCLASS of a plain scalar type (numpy scalars, IntEnum members, str subclasses): the query
+    holds the plain value as a literal of the plain type"""
+    m = modgen.load(SUBCLASS_SRC, "c04sub")
+    ctx.case("subclass-scalars", True)
+    try:
+        s1, s2 = m.build(m.DS(), m.GeV(-0.0))
+    except Exception as e:
+        ctx.violation(f"subclass-scalar:exc:{type(e).__name__}", f"captured subclass-of-scalar values: {type(e).__name__}: {str(e)[:160]}", {"subclass": True})
+        modgen.unload(m)
+        return
+    args = s1.query_ast.args[1].body.args
+    want = [(float, 30.5), (int, 1), (str, "a'b"), (bytes, b"x"), (float, -0.0)]
+    for a, (t, v) in zip(args, want):
+        ctx.count("subclass-scalar-captures")
+        if not (isinstance(a, ast.Constant) and type(a.value) is t and a.value == v and repr(a.value) == repr(v)):
+            ctx.violation("subclass-scalar:not-a-plain-literal", f"captured {v!r} held in a subclass of {t.__name__}: the query holds {ast.dump(a)[:120]} ({astx.unparse(a)[:60]})", {"subclass": True})
+            break
+    text = astx.unparse(s2.query_ast.args[1])
+    try:
+        astx.parse_expr(text)
+    except SyntaxError:
+        ctx.violation("subclass-scalar:not-a-plain-literal", f"the recorded Where lambda does not read back: {text[:160]}", {"subclass": True})
+    modgen.unload(m)
+
+
 def shard_main(ctx):
     if ctx.shard == 0:
         comprehension_scope(ctx)
+        subclass_scalars(ctx)
     for f in range(N_FILES[ctx.tier]):
         if ctx.out_of_time():
             ctx.count("stopped-by-time-budget")
@@ -421,6 +461,9 @@ def shard_main(ctx):
 
 
 def replay(ctx, witness):
+    if witness.get("subclass"):
+        subclass_scalars(ctx)
+        return
     if witness.get("comprehension"):
         comprehension_scope(ctx)
         modgen.cleanup()
